@@ -47,7 +47,9 @@ class Ctx:
         self.cvx = []  # cvxpy problems solved during execution (see cvxmodel)
         self.fresh_log = []  # z3 constants created during execution (loop witnesses etc.)
         self.nlp = []  # scipy.optimize.minimize programs (see libcalls.sp_minimize)
+        self.pybool_ids = set()  # ids of z3 Booleans known to be Python bool objects (contracts of functions returning True/False literals)
         self._abs_cache = {}
+        self.prune = True  # drop infeasible branches eagerly (optional: infeasible paths only yield vacuous obligations)
 
     def __enter__(self):
         self._prev = L.CUR
@@ -75,6 +77,8 @@ class Ctx:
             st.pc.append(g)
 
     def feasible(self, pc):
+        if not self.prune:
+            return True
         self.stats["prune_checks"] += 1
         from .solve import abstract_mul
 
@@ -341,6 +345,8 @@ class Exec:
         self.max_paths = max_paths
         self.depth = 0
         self.setmode = False  # set-level mode: [] and set() are symbolic collections
+        self.merge_ifs = False  # if-conversion: merge the two arms of a symbolic `if` when they only differ in values
+        self.pure = set()  # keys of functions whose return paths may be merged (no effect on the caller's state)
         from . import libcalls
         from . import cvxmodel  # noqa: F401 (registers the cvxpy DSL)
 
@@ -471,6 +477,8 @@ class Exec:
         while fr is not None:
             if name in fr.locals:
                 v = fr.locals[name]
+                if type(v).__name__ == "Undefined":
+                    raise Unsupported("variable %s has no single value after a merged branch (%s)" % (name, self.where(node, st) if node is not None else "?"))
                 if type(v).__name__ == "Poison":
                     raise Unsupported("loop-local temporary %s is read outside the iteration that assigned it (%s)" % (name, self.where(node, st) if node is not None else "?"))
                 return v
@@ -626,6 +634,10 @@ class Exec:
     def ev_BoolOp(self, node, st):
         # short-circuit; values are booleans in VOPy's uses
         is_and = isinstance(node.op, ast.And)
+        if self.merge_ifs:
+            r = self.try_eager_boolop(node, st, is_and)
+            if r is not None:
+                return r
         paths = [(st, None)]
         results = []
         for i, vnode in enumerate(node.values):
@@ -653,6 +665,38 @@ class Exec:
             paths = new
         return results
 
+    def try_eager_boolop(self, node, st, is_and):
+        """`a and b` / `a or b` without forking: when every operand evaluates on a single path to a scalar
+        boolean without writing anything and without meeting an implicit obligation, the result is And/Or of
+        the operands (evaluation order is then unobservable).  Tried on a clone; None = fall back to forking."""
+        for n in node.values:
+            for sub in ast.walk(n):
+                if isinstance(sub, (ast.Call,)) and not (isinstance(sub.func, ast.Attribute) and sub.func.attr in ("all", "any")):
+                    return None
+                if isinstance(sub, (ast.Is, ast.IsNot)):
+                    return None
+        trial = st.clone()
+        nimp = len(self.ctx.implicit)
+        nlog = len(trial.log)
+        vals = []
+        try:
+            for n in node.values:
+                r = self.ev(n, trial)
+                if len(r) != 1 or isinstance(r[0][1], Abort) or r[0][0] is not trial:
+                    raise Unsupported("fork")
+                v = self.truth(r[0][1])
+                vals.append(v)
+        except (Unsupported, PathDead, AttrMissing, L.ShapeError, L.IndexOOB):
+            del self.ctx.implicit[nimp:]
+            return None
+        if len(self.ctx.implicit) != nimp or len(trial.log) != nlog or len(trial.pc) != len(st.pc):
+            del self.ctx.implicit[nimp:]
+            return None
+        acc = vals[0]
+        for v in vals[1:]:
+            acc = V.land(acc, v) if is_and else V.lor(acc, v)
+        return [(st, acc)]
+
     CMPOPS = {ast.Lt: "lt", ast.LtE: "le", ast.Gt: "gt", ast.GtE: "ge", ast.Eq: "eq", ast.NotEq: "ne"}
 
     def compare(self, op, a, b, node, st):
@@ -667,6 +711,12 @@ class Exec:
                 if hasattr(x, "is_none") and y is None:
                     r = x.is_none()
                     return r if isinstance(op, ast.Is) else V.lnot(r)
+            for x, y in ((a, b), (b, a)):
+                if isz(x) and z3.is_bool(x) and isinstance(y, bool):
+                    if x.get_id() in self.ctx.pybool_ids:
+                        r = x if y else z3.Not(x)   # a Python bool `is True/False` iff it has that value
+                        return r if isinstance(op, ast.Is) else V.lnot(r)
+                    raise Unsupported("identity test of a symbolic (numpy) boolean against a Python bool literal")
             if a is None or b is None or isinstance(a, bool) or isinstance(b, bool):
                 r = a is b
             elif isinstance(a, SObj) and isinstance(b, SObj):
@@ -1188,6 +1238,10 @@ class Exec:
         if self.depth > 60:
             raise Unsupported("call depth")
         bound = self.bind_params(fnode, args, kwargs, st, self_val)
+        pure_entry = None
+        npc = len(st.pc)
+        if isinstance(fref, extract.FuncRef) and fref.key in self.pure and self.depth > 0:
+            pure_entry = st.clone()
         fr = Frame(module, fref if isinstance(fref, extract.FuncRef) else (parent.func if parent else None), cls, parent)
         st.frames.append(fr)
         # evaluate defaults in the new frame's module scope
@@ -1221,7 +1275,27 @@ class Exec:
                 out.append((s, Abort(o)))
             else:
                 raise EngineError("break/continue escaped a function")
+        if pure_entry is not None and len(out) > 1:
+            out = self.merge_pure_returns(pure_entry, out, npc)
         return out
+
+    def merge_pure_returns(self, entry, out, npc):
+        """A function declared pure (its frame obligation is proved in its own task) that returns only
+        None / True / False: paths with the same value are merged into one (disjunction of their conditions)."""
+        groups = {}
+        for s, v in out:
+            if isinstance(v, Abort) or not (v is None or isinstance(v, bool)):
+                return out
+            groups.setdefault(v, []).append(s)
+        merged = []
+        for v, sts in groups.items():
+            if len(sts) == 1:
+                merged.append((sts[0], v))
+                continue
+            st = entry.clone()
+            st.pc = list(entry.pc[:npc]) + [z3.Or(*[z3.And(*x.pc[npc:]) if len(x.pc) > npc else z3.BoolVal(True) for x in sts])]
+            merged.append((st, v))
+        return merged
 
     def instantiate(self, cls, args, kwargs, st, node):
         key = cls.key() + ".__new__"
@@ -1496,9 +1570,45 @@ class Exec:
             if isinstance(c, Abort):
                 out.append((s, c.outcome))
                 continue
+            if self.merge_ifs:
+                m = self.try_merged_if(stmt, s, c)
+                if m is not None:
+                    out.extend(m)
+                    continue
             for s2, b in self.branch(s, c):
                 out.extend(self.exec_block(stmt.body if b else stmt.orelse, s2))
         return out
+
+    def try_merged_if(self, stmt, st, c):
+        """If both arms run to completion on a single path each, merge the two resulting states."""
+        cc = self.truth(c)
+        if isinstance(cc, bool) or isinstance(V.conc(cc), bool):
+            return None
+        for blk in (stmt.body, stmt.orelse):
+            for n in blk:
+                for sub in ast.walk(n):
+                    if isinstance(sub, (ast.Return, ast.Break, ast.Continue, ast.Raise, ast.For, ast.While)):
+                        return None
+        ft = self.ctx.feasible(st.pc + [cc])
+        ff = self.ctx.feasible(st.pc + [z3.Not(cc)])
+        if not (ft and ff):
+            return None
+        base = len(st.pc)
+        s_then = st.clone()
+        s_else = st.clone()
+        s_then.pc.append(cc)
+        s_else.pc.append(z3.Not(cc))
+        pa = self.exec_block(stmt.body, s_then)
+        pb = self.exec_block(stmt.orelse, s_else) if stmt.orelse else [(s_else, NORMAL)]
+        if len(pa) != 1 or len(pb) != 1 or pa[0][1] is not NORMAL or pb[0][1] is not NORMAL:
+            return None
+        a, b = pa[0][0], pb[0][0]
+        try:
+            merged = merge_states(self, cc, a, b, base)
+        except Unsupported:
+            return None
+        self.ctx.stats["merges"] = self.ctx.stats.get("merges", 0) + 1
+        return [(merged, NORMAL)]
 
     def exec_Return(self, stmt, st):
         if stmt.value is None:
@@ -1597,6 +1707,63 @@ class Exec:
                             out.append((s3, o))
         return out
 
+    def for_guarded(self, stmt, st, garr):
+        """for row in <guarded array>: each candidate row is visited iff its guard holds; after every
+        candidate the 'visited and fell through' state and the 'not present' state are merged again."""
+        out = []
+        st.tmp.append(garr)
+        cur = [st]
+        n = len(garr.rows)
+        for k in range(n):
+            nxt = []
+            for s in cur:
+                g, row = s.tmp[-1].rows[k]
+                gg = self.truth(g)
+                if isinstance(gg, bool) or isinstance(V.conc(gg), bool):
+                    present = gg if isinstance(gg, bool) else V.conc(gg)
+                    if not present:
+                        nxt.append(s)
+                        continue
+                    branches = [(s, True)]
+                else:
+                    branches = self.branch(s, gg)
+                cont = {}
+                for s2, b in branches:
+                    if not b:
+                        cont[False] = s2
+                        continue
+                    row2 = s2.tmp[-1].rows[k][1]
+                    for s3 in self.assign_target_paths(stmt.target, row2, s2):
+                        for s4, o in self.exec_block(stmt.body, s3):
+                            if o is NORMAL or o is CONTINUE:
+                                if True in cont:
+                                    cont[True] = merge_states_general(self, cont[True], s4)
+                                else:
+                                    cont[True] = s4
+                            elif o is BREAK:
+                                s4.tmp.pop()
+                                out.append((s4, NORMAL))
+                            else:
+                                s4.tmp.pop()
+                                out.append((s4, o))
+                if True in cont and False in cont:
+                    try:
+                        nxt.append(merge_states_general(self, cont[True], cont[False]))
+                    except Unsupported:
+                        nxt.extend([cont[True], cont[False]])
+                else:
+                    nxt.extend(cont.values())
+            cur = nxt
+            if len(cur) > 64:
+                raise Unsupported("path explosion over a guarded array")
+        for s in cur:
+            s.tmp.pop()
+            if stmt.orelse:
+                out.extend(self.exec_block(stmt.orelse, s))
+            else:
+                out.append((s, NORMAL))
+        return out
+
     def exec_For(self, stmt, st):
         out = []
         for s, itv in self.ev(stmt.iter, st):
@@ -1605,6 +1772,9 @@ class Exec:
                 continue
             if hasattr(itv, "symbolic_for"):
                 out.extend(itv.symbolic_for(self, s, stmt))
+                continue
+            if isinstance(itv, L.GArr):
+                out.extend(self.for_guarded(stmt, s, itv))
                 continue
             items = self.iter_concrete(itv)
             paths = [(s, NORMAL)]
@@ -1646,6 +1816,134 @@ class Paths(list):
 class _Spread:
     def __init__(self, items):
         self.items = items
+
+
+def _merge_val(ex, c, a, b, memo):
+    """Merge two values of the then/else states.  Raises Unsupported when they cannot be merged."""
+    if a is b:
+        return a
+    if a is None and b is None:
+        return None
+    if isz(a) or isz(b) or isinstance(a, (bool, int, Fraction)) or isinstance(b, (bool, int, Fraction)):
+        if (V.is_num(a) or V.is_bool(a)) and (V.is_num(b) or V.is_bool(b)):
+            if isz(a) and isz(b) and a.eq(b):
+                return a
+            if not isz(a) and not isz(b) and type(a) == type(b) and a == b:
+                return a
+            return V.ite(c, a, b)
+        raise Unsupported("merge of %r / %r" % (a, b))
+    k = (id(a), id(b))
+    if k in memo:
+        return memo[k]
+    if isinstance(a, (SArr, L.GArr)) and isinstance(b, (SArr, L.GArr)):
+        if isinstance(a, SArr) and isinstance(b, SArr) and a.shape == b.shape:
+            if L.same_elems(a, b):
+                r = a
+            else:
+                r = L.elementwise(lambda x, y: V.ite(c, x, y), a, b, kind=L.join_kind(a.kind, b.kind))
+            memo[k] = r
+            return r
+        ga, gb = L.GArr.of(a), L.GArr.of(b)
+        if ga.row_shape != gb.row_shape:
+            raise Unsupported("merge of arrays of different row shapes")
+        longer, shorter, cond = (ga, gb, c) if len(ga.rows) >= len(gb.rows) else (gb, ga, z3.Not(c))
+        for (g1, r1), (g2, r2) in zip(longer.rows, shorter.rows):
+            same_g = (g1 is g2) or (isz(g1) and isz(g2) and g1.eq(g2)) or (not isz(g1) and not isz(g2) and g1 == g2)
+            if not same_g or not L.same_elems(r1, r2):
+                raise Unsupported("merge of arrays that differ in a common row")
+        rows = list(shorter.rows) + [(V.land(cond, g), r) for g, r in longer.rows[len(shorter.rows):]]
+        r = L.GArr(rows, ga.row_shape, ga.kind)
+        memo[k] = r
+        return r
+    if isinstance(a, list) and isinstance(b, list) and len(a) == len(b):
+        r = [_merge_val(ex, c, x, y, memo) for x, y in zip(a, b)]
+        memo[k] = r
+        return r
+    if isinstance(a, tuple) and isinstance(b, tuple) and len(a) == len(b):
+        return tuple(_merge_val(ex, c, x, y, memo) for x, y in zip(a, b))
+    if isinstance(a, dict) and isinstance(b, dict) and a.keys() == b.keys():
+        return {kk: _merge_val(ex, c, a[kk], b[kk], memo) for kk in a}
+    if isinstance(a, SObj) and isinstance(b, SObj) and a.oid == b.oid:
+        r = SObj(a.cls, None, a.tag)
+        r.oid = a.oid
+        memo[k] = r
+        if a.fields.keys() != b.fields.keys():
+            raise Unsupported("merge of objects with different fields")
+        r.fields = {kk: _merge_val(ex, c, a.fields[kk], b.fields[kk], memo) for kk in a.fields}
+        return r
+    if type(a) is type(b) and isinstance(a, (PyFunc, NestedFunc, ClassRef, LibRef, Builtin, str, PlaceholderStr, RangeVal)):
+        return a
+    if hasattr(a, "merge_with"):
+        return a.merge_with(ex, c, b, memo)
+    raise Unsupported("merge of %r / %r" % (a, b))
+
+
+class Undefined:
+    """A local whose value differs irreconcilably between two merged branches; reading it is unsupported."""
+
+    def __repr__(self):
+        return "<undefined after merge>"
+
+
+def merge_states(ex, c, a, b, base):
+    """State after `if c: A else: B` when both arms completed: values are if-then-else'd, arrays that
+    differ only by appended rows become guarded arrays, path conditions added by an arm are guarded by it."""
+    if len(a.frames) != len(b.frames):
+        raise Unsupported("merge across different call depths")
+    memo = {}
+    st = State()
+    st.pc = list(a.pc[:base])
+    extra_a = a.pc[base + 1:]
+    extra_b = b.pc[base + 1:]
+    if extra_a:
+        st.pc.append(z3.Implies(c, z3.And(*extra_a)))
+    if extra_b:
+        st.pc.append(z3.Implies(z3.Not(c), z3.And(*extra_b)))
+    fmemo = {}
+
+    def merge_frame(fa, fb):
+        if fa is None and fb is None:
+            return None
+        if fa is None or fb is None:
+            raise Unsupported("frame structure")
+        k = (id(fa), id(fb))
+        if k in fmemo:
+            return fmemo[k]
+        fr = Frame(fa.module, fa.func, fa.cls, None)
+        fmemo[k] = fr
+        fr.parent = merge_frame(fa.parent, fb.parent)
+        for name in set(fa.locals) | set(fb.locals):
+            if name in fa.locals and name in fb.locals:
+                try:
+                    fr.locals[name] = _merge_val(ex, c, fa.locals[name], fb.locals[name], memo)
+                except Unsupported:
+                    fr.locals[name] = Undefined()
+            else:
+                fr.locals[name] = Undefined()
+        return fr
+    st.frames = [merge_frame(x, y) for x, y in zip(a.frames, b.frames)]
+    st.roots = _merge_val(ex, c, a.roots, b.roots, memo) if a.roots.keys() == b.roots.keys() else a.roots
+    st.tmp = [_merge_val(ex, c, x, y, memo) for x, y in zip(a.tmp, b.tmp)]
+    st.log = list(a.log) + [e for e in b.log[len(a.log):]]
+    return st
+
+
+def merge_states_general(ex, a, b):
+    """Union of two states that share a path-condition prefix: the suffixes ca / cb become one disjunction,
+    values are ite(ca, value in a, value in b)."""
+    n = min(len(a.pc), len(b.pc))
+    i = 0
+    while i < n and a.pc[i].eq(b.pc[i]):
+        i += 1
+    ca = z3.And(*a.pc[i:]) if len(a.pc) > i else z3.BoolVal(True)
+    cb = z3.And(*b.pc[i:]) if len(b.pc) > i else z3.BoolVal(True)
+    a2, b2 = State(), State()
+    for src, dst, cnd in ((a, a2, ca), (b, b2, z3.Not(ca))):
+        dst.pc = list(src.pc[:i]) + [cnd]
+        dst.frames, dst.roots, dst.tmp, dst.log = src.frames, src.roots, src.tmp, src.log
+    st = merge_states(ex, ca, a2, b2, i)
+    st.pc = list(a.pc[:i]) + [z3.Or(ca, cb)]
+    return st
 
 
 class PathDead(Exception):
